@@ -38,4 +38,4 @@ Definition shared_sx (prog : rule) : sx :=
 
 (* [Gb; has_next; shared; next_rule in the level of a later sibling refinement (unsettled reading); in the proved fragment] *)
 Definition fragW_sx (prog : rule) (W : list elem) : sx :=
-  SL [SB (Gb prog); SB (has_next prog); shared_sx prog; SB (later_ref_next prog); SB (Fb prog)].
+  SL [SB (Gb prog); SB (has_next prog); shared_sx prog; SB (later_ref_next prog); SB (Fx prog)].
